@@ -33,8 +33,15 @@ MANIFEST = {
             "parameters. An impl-side oracle evaluates the property's inequalities on the real "
             "results and searches for failing inputs.",
     "design_ref": "DESIGN.md §6 C14",
-    "note": "Proved at ℝ: rounding is not modelled (measured by the Float run and the oracle "
-            "tolerances). UniformGrid::find + 1 < size failed in IEEE arithmetic a few ulp below "
+    "note": "Proved at ℝ: rounding is not modelled by the ℝ theorems; the oracle compares every "
+            "interpolated value of the real code with the EXACT rational interpolant of the chosen "
+            "bin and holds it to 8*eps*max|y| (error analysis of the formula as written; standard-"
+            "model theorem interp_error_bound_standard_model); values that leave the interval of "
+            "the neighbouring knots within that bound (or by slope * the few ulp of bin-edge "
+            "ambiguity) are the known findings interp-cancellation-beyond-neighbour[:negative] / "
+            "interp-bin-edge-extrapolation[:negative] (kernel-checked binary64 witnesses "
+            "interp_float_undershoots / interp_float_negative on the bit-level model B64, itself "
+            "diffed against the hardware by the bitop ops); anything larger is a violation. UniformGrid::find + 1 < size failed in IEEE arithmetic a few ulp below "
             "the last knot until /repo f1d81dd (clamp, now modelled and proved for every number "
             "type incl. Float); the oracle still reports key uniformgrid-find-last-bin if the real "
             "find returns size-1 and the thorough tier re-runs the witness unguarded under ASan. "
@@ -461,8 +468,10 @@ def judge_interp(orc, kind, bi, setup, line, xl, yl, xr, yr, x, v, kl, kr, *, up
     if excess > 0 or (v < 0 and lo >= 0):
         # (a) explained by rounding: C*eps*M for the formula + the exact slope over the few ulps
         # by which the rounded bin search lets the point sit outside the bin
-        slope = abs(float((Fyr - Fyl) / (Fxr - Fxl))) / (float(FX) if final_div else 1.0)
-        allowed = bound + slope * dist * (1 + 1e-9) + 4 * EPS * max(abs(kl), abs(kr))
+        # how far the EXACT line of the chosen bin is outside the neighbours at this point
+        # (non-zero only when the point sits the few allowed ulps outside the bin)
+        exact_excess = float(max(Fr(0), Fr(lo) - R, R - Fr(hi)))
+        allowed = bound + exact_excess * (1 + 1e-9) + 4 * EPS * max(abs(kl), abs(kr))
         info.update({"beyond_neighbour_by": excess, "allowed_by_rounding": allowed,
                      "outside_bin_by_ulps_of_x": dist / (EPS * abs(x)) if x else 0.0})
         if excess <= allowed:
@@ -654,7 +663,15 @@ class Oracle:
                 self.count("continuity")
                 if p is not None and j == p:
                     self.count("continuity_prime_knot")
-                if max(vs) - min(vs) > 1e-10 * loc:
+                # the probes span a few ulp of E and may be evaluated by either adjacent bin up to
+                # b.kd ulp outside it: allow the steeper adjacent slope over that distance
+                es = [t[0] for t in tr]
+                sl = max(abs(kn[q + 1] - kn[q]) / (b.en[q + 1] - b.en[q])
+                         for q in (max(j - 1, 0), min(j, b.n - 2)))
+                if p is not None:      # d/dE of y(E)/E has the extra term sigma/E
+                    sl += 2 * loc / min(es)
+                span = (max(es) - min(es)) + 2 * b.kd * EPS * max(es)
+                if max(vs) - min(vs) > 1e-10 * loc + 2 * sl * span:
                     self.fail("xs-discontinuous", "jump across a knot (a few ulp either side)", bi,
                               [t[2] for t in tr], {"knot": j, "values": vs,
                                                    "prime": b.prime[slot]})
@@ -734,6 +751,11 @@ class Oracle:
                 self.count("eloss")
                 rt = rate.get((bi, e))
                 if rt is None or self.region(bi, e) == "lastbin":
+                    continue
+                if rt < 0:
+                    # the energy-loss lookup itself is negative: known finding
+                    # interp-*:negative (judged on the `xs 1 E` op), not a defect of the loss code
+                    self.count("eloss_negative_rate_attributed")
                     continue
                 linear = not (s * rt >= e * lim)      # the branch the real code takes
                 self.count("eloss_linear" if linear else "eloss_curve")
